@@ -35,6 +35,7 @@ pub struct OpMix {
     pub foreign: u32,
     pub two_writers: u32,
     pub switch_cache: u32,
+    pub cancel_commit: u32,
 }
 
 impl OpMix {
@@ -61,6 +62,7 @@ impl OpMix {
         foreign: 0,
         two_writers: 0,
         switch_cache: 0,
+        cancel_commit: 0,
     };
 }
 
@@ -156,6 +158,20 @@ pub fn op(cfg: ProgCfg, nkeys: usize, nblobs: usize) -> BoxedStrategy<Op> {
     add(m.remove_hash, gen::addr_ref(nblobs).prop_map(|addr| Op::RemoveHash { addr }).boxed());
     add(m.remove_hash.min(1), (gen::addr_ref(nblobs), any::<u16>()).prop_map(move |(addr, b)| Op::RemoveHashMulti { addr, also: pick(b, nblobs) }).boxed());
     add(m.switch_cache, Just(Op::SwitchCache).boxed());
+    add(
+        m.cancel_commit,
+        (gen::write_spec(cfg.wmix, nkeys, nblobs), 0usize..4)
+            .prop_map(|(mut spec, n)| {
+                if !spec.streamed() {
+                    spec.entry = WEntry::Opts;
+                }
+                if spec.chunks.is_empty() {
+                    spec.chunks = vec![3, 4];
+                }
+                Op::Abandon { spec, at: AbandonAt::CancelThenCommit(n) }
+            })
+            .boxed(),
+    );
     add(m.remove_fully, (k(), prop::bool::weighted(0.8)).prop_map(|(key, fully)| Op::RemoveOpts { key, fully }).boxed());
     add(m.clear, Just(Op::Clear).boxed());
     add(m.idx_insert, (k(), idx_fields(nblobs)).prop_map(|(key, fields)| Op::IdxInsert { key, fields }).boxed());
